@@ -26,7 +26,7 @@ RULE = ("random Clifford circuits (plus exact rational rotations, incl. near-det
         "the model's table), a classical bit overwritten by a second qubit followed by a reset and re-use of either qubit, several (circuit, parameter values) "
         "pairs in one ExactSampler.run -- the same parametrised circuit object with different values, copies, other circuits in between (independent simulator only); "
         "every parametrised standard gate (plain and through expressions p/2, -p, 2p+c; dynamic circuits) bound by the sampler with values inside and "
-        "outside [0, 2pi): negative, beyond one / two / many turns, exact multiples of 2pi (independent simulator only); classical bits laid out other than in one register (several registers, bits outside any register, aliasing registers) with a bit set to 1 before later 0-outcomes / resets / overwrites; one circuit holding different unitary gates of equal name, width and parameters (user-defined blocks and gate classes, open vs closed controls, PauliEvolutionGate of different operators; reference written out in standard gates)")
+        "outside [0, 2pi): negative, beyond one / two / many turns, exact multiples of 2pi (independent simulator only); classical bits laid out other than in one register (several registers, bits outside any register, aliasing registers) with a bit set to 1 before later 0-outcomes / resets / overwrites; one circuit holding different unitary gates of equal name, width and parameters (user-defined blocks and gate classes, open vs closed controls, PauliEvolutionGate of different operators; reference written out in standard gates); qubit re-use: reset - multi-qubit gate with the qubit as first / middle / last argument (every multi-qubit standard gate, every position) - reset again - read-out, and an ancilla re-used over several rounds")
 ASSUMPTIONS = ["Qiskit Statevector.evolve / probabilities and IEEE rounding are outside the model; the implementation's 1e-16 pruning tolerance is modelled as 0",
                "the concrete Clifford backend of the model (exact Gaussian-rational amplitudes) is validated against the implementation, not proved Lawful / ExSem (the refinement theorem holds for every backend whose states have expectation vectors transformed by transfer matrices)",
                "through ExactSampler: QuasiDistribution keeps integer keys"]
@@ -220,6 +220,50 @@ def _same_name_cases():
         yield ("simulate", p)
 
 
+def _reuse_cases():
+    """seed-independent: qubit re-use around multi-qubit gates.  A qubit q is reset, then a gate on two or more qubits acts on q -- q being
+    the FIRST, a MIDDLE or the LAST argument of the gate, the other arguments in superposition / in |1> -- then q is reset AGAIN and read
+    out (directly, or through a cx onto a partner whose measurement shows whether q really was |0>).  Every reset of the program has to
+    return its qubit to |0>, whichever argument of the preceding gate the qubit was.  Every multi-qubit gate of Qiskit's standard library
+    in every argument position (independent simulator only for names outside the model's table), plus ancillas re-used over several rounds."""
+    g = lambda nm, *qs: {"name": nm, "qubits": list(qs)}                                # noqa: E731
+    m = lambda q, c: {"name": "measure", "qubits": [q], "clbits": [c]}                  # noqa: E731
+    n = 0
+    for name, k, npar in _std_gate_names():
+        if k < 2:
+            continue
+        in_model = name in MODEL_GATES
+        gate = g(name, *range(k)) if in_model else {"name": "std", "gate": name, "params": STD_ANGLES[:npar], "qubits": list(range(k))}
+        for q in range(k):
+            others = [o for o in range(k) if o != q]
+            for variant in range(2):
+                n += 1
+                # variant 0: q reset from |0>, partners in superposition; variant 1: q reset from |1>, partners in |1> / superposition
+                prep = ([g("reset", q)] + [g("h", o) for o in others] if variant == 0 else
+                        [g("x", q), g("reset", q), g("x", others[0])] + [g("h", o) for o in others[1:]])
+                if variant == 0:
+                    tail = [m(o, o) for o in range(k)]
+                else:
+                    tail = [g("cx", q, others[-1]), g("barrier", *range(k))] + [m(o, o) for o in range(k)]
+                p = {"nq": k, "ncl": k, "instrs": prep + [gate, g("reset", q)] + tail, "via": "sampler" if n % 3 == 0 else "func",
+                     "always_oracle": True}
+                if not in_model:
+                    p["oracle_only"] = True
+                yield ("simulate", p)
+    # one ancilla used over several rounds (parity extraction), reset between the rounds, as target / second argument every time
+    progs = [
+        (3, 2, [g("h", 0), g("h", 1), g("cx", 0, 2), g("cx", 1, 2), m(2, 0), g("reset", 2), g("cx", 0, 2), m(2, 1), g("reset", 2), g("cx", 1, 2),
+                g("reset", 2), g("cx", 2, 0), g("h", 0), m(0, 0)]),
+        (2, 2, [g("reset", 1), g("h", 0), g("cx", 0, 1), g("reset", 1), m(1, 0), m(0, 1)]),
+        (2, 2, [g("reset", 1), g("reset", 0), g("x", 0), g("swap", 0, 1), g("reset", 1), g("reset", 0), m(1, 0), m(0, 1)]),
+        (3, 3, [g("reset", 2), g("h", 0), g("cy", 0, 2), g("barrier", 0, 1, 2), g("reset", 2), g("cx", 2, 1), m(1, 1), g("h", 1), g("cz", 0, 1),
+                g("cx", 1, 2), g("reset", 2), m(2, 2), m(0, 0)]),
+        (3, 3, [g("x", 0), g("cx", 0, 1), g("reset", 1), g("cx", 0, 1), g("reset", 1), g("cx", 0, 2), g("reset", 2), g("reset", 2), m(1, 0), m(2, 1), m(0, 2)]),
+    ]
+    for idx, (nq, ncl, instrs) in enumerate(progs):
+        yield ("simulate", {"nq": nq, "ncl": ncl, "instrs": instrs, "via": "sampler" if idx % 2 else "func", "always_oracle": True})
+
+
 def _sweep_cases():
     """seed-independent: ONE ExactSampler.run() call that holds several (circuit, parameter values) pairs -- the V1 parameter-sweep
     idiom: the same parametrised circuit object several times with different values, mixed with an unparametrised circuit, with a
@@ -344,6 +388,7 @@ def _oracle_sweep(payload):
 
 
 def cases(rng, tier):
+    yield from _reuse_cases()
     yield from _deterministic_cases()
     yield from _clbit_layout_cases()
     yield from _same_name_cases()
